@@ -9,6 +9,9 @@ THEOREMS = ["Props.C03.c03_scan_count", "Props.C03.c03_match_count", "Props.C03.
 
 
 def run(check, tier):
+    import tie_common
+
+    tie_common.run_pyops(check, tier)      # the translator's prelude against CPython (the heap-mode bridges are written against it)
     import interp_suite as S
     from core import rng
 
